@@ -348,6 +348,8 @@ class Run:
         key = self.ds.key()
         if key not in _W.refs:
             keep = self.cache + ".keep"
+            os.makedirs(self.cache, exist_ok=True)  # a cache-disabled process may have removed the whole folder
+            shutil.rmtree(keep, ignore_errors=True)
             os.rename(self.cache, keep)
             os.makedirs(self.cache)
             saved = (self.log, self.now, self.steps, self.nprocs, dict(self.probes))
